@@ -171,6 +171,21 @@ def run(ctx, crate):
                 txt_ok = (sec[0] in ("phi", "call", "proj")) and from_key
                 after = all(b.dominates(g.files.site.bb, s.bb) for _ in [0])
                 sect_ok = sect_ok or (txt_ok and after)
+        # the buffer that collects the sections is one string created before the loop over the patterns: a buffer that is replaced on the way (a fresh
+        # one for some pattern, an accumulator reset by an early `return String::new()`) forgets the sections appended before
+        import order as O_
+        recvs = []
+        for s in outs:
+            if s.args[0] not in recvs:
+                recvs.append(s.args[0])
+        def pre_created(r_, depth=0):
+            if r_[0] == "phi" and depth < 4:
+                return bool(r_[2]) and all(pre_created(m_, depth + 1) for m_ in r_[2])  # (one of several such buffers, chosen per pattern: `match severity { .. }`)
+            return r_[0] in ("obj", "call") and O_.creation_block(b, r_) is not None and O_.creation_block(b, r_) not in g.outer.blocks
+        one_buf = bool(recvs) and all(pre_created(r_) for r_ in recvs)  # (one per severity in the vulnerability report)
+        obs.append(Ob("R11.entries", fn, "the sections are collected in buffers created before the loop over the patterns, never replaced", one_buf,
+                      expected="each receiving String is one object created outside the loop", found=[show(x)[:80] for x in recvs],
+                      example="a pattern without findings listed after one with findings"))
         obs.append(Ob("R11.entries", fn, "section text of this pattern, then its list, appended per pattern", sect_ok,
                       expected="push_str(report, section(key) + \"\\n\" + list) after the inner loops", found="%d candidate appends" % len(outs)))
         closes = [s for s in g.pushes if s.args[0] == buf and not g.in_loop(s, g.files) and g.in_loop(s, g.outer)]
@@ -200,7 +215,7 @@ def run(ctx, crate):
             rep = wr[0].args[1]
             for i, cat in enumerate(("vulnerabilities", "optimizations", "qa")):
                 gen = R.GENERATORS[cat]
-                ok = any(s.args[0] == rep and T.is_call(s.args[1], gen.rsplit("::", 1)[-1]) and s.args[1][2] and s.args[1][2][0][0] == "param" for s in pushes)
+                ok = any(s.args[0] == rep and any(T.is_call(p_, gen.rsplit("::", 1)[-1]) and p_[2] and p_[2][0][0] == "param" for p_ in R.flatten(s.args[1])) for s in pushes)
                 obs.append(Ob("R11.concat", gr.path, "%s block appended to the written buffer" % cat, ok,
                               expected="push_str(report, %s(map))" % gen.rsplit("::", 1)[-1]))
             # whatever else goes into the written buffer is constant text none of whose lines can be read as an entry or as the start of a list
@@ -211,9 +226,8 @@ def run(ctx, crate):
                 if s.args[0] != rep:
                     continue
                 a = s.args[1]
-                if any(T.is_call(a, g_) for g_ in gens):
-                    continue
-                pieces = [R.lit(p_) for p_ in R.flatten(a)]
+                # (a block and the text after it may be appended in one go: `generate(..) + "\n\n"`)
+                pieces = [R.lit(p_) for p_ in R.flatten(a) if not any(T.is_call(p_, g_) for g_ in gens)]
                 if all(p_ is not None for p_ in pieces):
                     text = "".join(pieces)
                     if not [ln for ln in text.split("\n") if ENTRY_RE.match(ln) or ln.startswith("### Lines")]:
